@@ -730,3 +730,46 @@ def r16c(ctx, rep):
             (rep.ok if sel.get(v) == nm else rep.fail)(
                 "R16c", key, "radix %d prints with %s" % (v, nm) if sel.get(v) == nm else
                 "radix %d prints with %s, expected %s" % (v, sel.get(v), nm), [ns.span])
+
+
+def r16e(ctx, rep):
+    facts = ctx["facts"]
+    rep.rule("R16e", "the decimal printer does not squeeze a float through a machine integer: <Number as Display>::fmt "
+             "contains no float-to-int cast (which saturates beyond 2^63, so a large integral float would print as "
+             "i64::MIN/MAX and read back as a different number). The radix printers are exempt: C16 restricts inexact "
+             "numbers to radix 10.")
+    fn = need(rep, "R16e", facts, "<marwood::number::Number as std::fmt::Display>::fmt")
+    if fn is None:
+        return
+    casts = [(s["rv"]["from"], s["rv"]["to"], s["loc"]) for bb, j, s in fn.stmts() if s["rv"]["k"] == "cast" and s["rv"]["ck"] == "FloatToInt"]
+    if casts:
+        rep.fail("R16e", "R16e|Display|float-to-int", "Display for Number casts %s to %s while printing: a finite float beyond "
+                 "the integer's range saturates and its printed form reads back as a different number" % (casts[0][0], casts[0][1]),
+                 [c[2] for c in casts])
+    else:
+        rep.ok("R16e", "R16e|Display|float-to-int", "Display for Number formats floats without an integer cast", [fn.span])
+
+
+def r16f(ctx, rep):
+    facts = ctx["facts"]
+    rep.rule("R16f", "exact readings are tried before the inexact one: in Number::parse every call of f64::from_str_radix is "
+             "dominated by the calls of i64::from_str_radix and BigInt::from_str_radix (it is reached only after both "
+             "failed); otherwise a spelling that is a valid exact integer in the given radix (hex digits include 'e') is "
+             "read as a float and loses exactness or low bits.")
+    fn = need(rep, "R16f", facts, "marwood::number::Number::parse")
+    if fn is None:
+        return
+    def sites(pred):
+        return [bb for bb, t in fn.calls() if (callee(t) or "").endswith("from_str_radix") and pred(t.get("fnargs") or callee(t))]
+    ints = sites(lambda x: "i64" in x)
+    bigs = sites(lambda x: "BigInt" in x and "Ratio" not in x)
+    flts = sites(lambda x: "f64" in x)
+    if not ints or not bigs or not flts:
+        rep.anchor_lost("R16f", "i64 / BigInt / f64 from_str_radix calls in Number::parse (found %d/%d/%d)" % (len(ints), len(bigs), len(flts)))
+        return
+    for i, fb in enumerate(flts):
+        ok = any(fn.dominates(b, fb) for b in ints) and any(fn.dominates(b, fb) for b in bigs)
+        (rep.ok if ok else rep.fail)("R16f", "R16f|parse|float#%d" % (i + 1),
+                                     "the float reading is attempted only after the exact integer readings" if ok else
+                                     "Number::parse can try the float reading before the exact integer readings: exact "
+                                     "spellings containing e/E/. are read inexactly", [fn.blocks[fb]["term"]["loc"]])
